@@ -17,6 +17,8 @@ type c06gBlock struct {
 }
 
 type c06gen struct {
+	thorough bool
+	noRemove bool // suite c07: StateCache.Remove is C06's subject (open finding C06-remove-out-of-order)
 	r      *rand.Rand
 	ops    []string
 	keys   []string
@@ -212,6 +214,12 @@ func (g *c06gen) stepRandom() {
 			b.hash = nh
 			g.hashes = append(g.hashes, nh)
 		}
+	case x < 76:
+		if g.r.Intn(3) == 0 && !g.noRemove {
+			g.emit("srem %s", g.key()) // StateCache.Remove drops the key's whole version map
+		} else {
+			g.lookup()
+		}
 	default:
 		g.lookup()
 	}
@@ -235,7 +243,7 @@ func (g *c06gen) lookup() {
 }
 
 func genC06(r *rand.Rand, tier string, idx int) []string {
-	g := &c06gen{r: r}
+	g := &c06gen{r: r, thorough: tier == "thorough"}
 	for i, n := 0, 1+r.Intn(3); i < n; i++ {
 		g.keys = append(g.keys, fmt.Sprintf("k%d", i+1))
 	}
@@ -253,6 +261,9 @@ func genC06(r *rand.Rand, tier string, idx int) []string {
 	}
 	if idx%4 == 2 {
 		return genC06Perm(g)
+	}
+	if idx%8 == 5 {
+		return genC06InOrder(g)
 	}
 	maxOps := 36
 	if tier == "thorough" {
@@ -276,6 +287,9 @@ func genC06Long(g *c06gen, variant int) []string {
 	r := g.r
 	k := g.keys[0]
 	n := []int{1999, 2000, 2001, 2002, 2003, 2100}[r.Intn(6)]
+	if g.thorough && r.Intn(4) == 0 {
+		n = []int{2500, 4100}[r.Intn(2)] // the link cache (capacity 2000) evicts hundreds / thousands of links
+	}
 	g.emit("blk r0 r0 -")
 	if variant != 2 {
 		g.emit("bset r0 %s %s", k, g.val())
@@ -292,6 +306,11 @@ func genC06Long(g *c06gen, variant int) []string {
 		g.emit("sget %s r0", k)
 	}
 	probe()
+	if r.Intn(2) == 0 {
+		// drop the key's map, then let a block in the middle re-create it (commits stay in ancestor order)
+		g.emit("srem %s", k)
+		g.emit("sget %s c%d", k, n)
+	}
 	// a fork off the middle of the chain and a write near the tip, then look again from the tip and from old blocks
 	mid := 1 + r.Intn(n)
 	g.emit("blk f1 f1 c%d", mid)
@@ -480,6 +499,9 @@ func genC06Perm(g *c06gen) []string {
 		for j, m := 0, r.Intn(3); j < m; j++ {
 			look()
 		}
+		if r.Intn(6) == 0 {
+			g.emit("srem %s", g.key())
+		}
 	}
 	for _, k := range g.keys {
 		for _, b := range bs {
@@ -489,10 +511,55 @@ func genC06Perm(g *c06gen) []string {
 	return g.ops
 }
 
+// blocks committed strictly in ancestor order (every block right after it is built, parents first) with
+// StateCache.Remove at arbitrary points: a dropped version map may only turn hits into misses (remove_safe_in_order)
+func genC06InOrder(g *c06gen) []string {
+	r := g.r
+	n := 4 + r.Intn(10)
+	var hashes []string
+	for i := 0; i < n; i++ {
+		hash := fmt.Sprintf("o%d", i+1)
+		prev := "-"
+		if i > 0 {
+			if r.Intn(3) == 0 {
+				prev = hashes[r.Intn(i)]
+			} else {
+				prev = hashes[i-1]
+			}
+		}
+		g.emit("blk %s %s %s", hash, hash, prev)
+		for _, k := range g.keys {
+			switch r.Intn(5) {
+			case 0, 1:
+				g.emit("bset %s %s %s", hash, k, g.val())
+			case 2:
+				g.nt++
+				g.emit("txn t%d %s", g.nt, hash)
+				g.emit("trem t%d %s", g.nt, k)
+				g.emit("tcommit t%d", g.nt)
+			}
+		}
+		g.emit("bcommit %s", hash)
+		hashes = append(hashes, hash)
+		for j, m := 0, r.Intn(3); j < m; j++ {
+			g.emit("sget %s %s", g.key(), hashes[r.Intn(len(hashes))])
+		}
+		if r.Intn(3) == 0 {
+			g.emit("srem %s", g.key())
+		}
+	}
+	for _, k := range g.keys {
+		for _, h := range hashes {
+			g.emit("sget %s %s", k, h)
+		}
+	}
+	return g.ops
+}
+
 func init() {
 	register(&Suite{
 		Name: "c06",
-		Rule: "random histories over block trees with forks, gaps, duplicate and late parents, cycles, out-of-order commits, removals, abandoned transactions/blocks, lookups at old/sibling/tip blocks at all four layers; chains of 1999..2100 blocks crossing maxHisDepth; sibling fans around the per-key capacity; block trees built first and committed in an arbitrary permutation (children before parents, removals of never-seen keys); exhaustive sequences of commit-with-write / -without / -with-removal / lookup over a 4-block tree; oracle = ancestor-chain answer from the harness's own record of the committed tree; non-trivial = at least one hit answered by a proper ancestor or by a pending layer",
+		Rule: "random histories over block trees with forks, gaps, duplicate and late parents, cycles, out-of-order commits, removals, abandoned transactions/blocks, lookups at old/sibling/tip blocks at all four layers; chains of 1999..2100 blocks crossing maxHisDepth; sibling fans around the per-key capacity; StateCache.Remove at arbitrary points (in trees committed in ancestor order, in permuted trees, after long chains); block trees built first and committed in an arbitrary permutation (children before parents, removals of never-seen keys); exhaustive sequences of commit-with-write / -without / -with-removal / lookup over a 4-block tree; oracle = ancestor-chain answer from the harness's own record of the committed tree; non-trivial = at least one hit answered by a proper ancestor or by a pending layer",
 		Gen:  genC06,
 		Run: func(ops []string) CaseResult {
 			return runSCSeq(ops, false, false, func(w *scWorld) bool { return w.ancestorHits+w.layerHits > 0 })
